@@ -20,7 +20,7 @@ def write_evidence(mod, prop, tier, seed, merged, wall, new_violations, known_se
         "distinct_nontrivial": len(merged.nontrivial),
         "distinct_outcomes": len(merged.outcomes),
         "rule": d["rule"],
-        "samples": jsonable(merged.samples) or [jsonable(units[0])] if units else [],
+        "samples": jsonable(merged.samples) or ([jsonable(units[0])] if units else []),
         "exhaustive": bool(d.get("exhaustive", True)),
         "bounds": d.get("bounds", {}),
         "caps_hit": d.get("caps_hit", []),
@@ -44,8 +44,9 @@ def write_evidence(mod, prop, tier, seed, merged, wall, new_violations, known_se
         "wall_s": float(wall),
         "violations": int(new_violations),
     }
-    os.makedirs(os.path.join(VERIF, "evidence"), exist_ok=True)
-    path = os.path.join(VERIF, "evidence", f"{prop}.json")
+    evdir = os.environ.get("VERIF_EVIDENCE_DIR") or os.path.join(VERIF, "evidence")
+    os.makedirs(evdir, exist_ok=True)
+    path = os.path.join(evdir, f"{prop}.json")
     tmp = path + ".tmp"
     with open(tmp, "w") as f:
         json.dump(ev, f, indent=1, sort_keys=True, ensure_ascii=True)
